@@ -92,7 +92,7 @@ t ~ %ordered
 fam("F4", """
 rp *
     ~ %rewrite %global
-""", [S(["rp k1"], [P(["s 1", "s 2", "s 3"])]), S(["rp k2"], [P(["s 1"])])],
+""", [S(["rp k1"], [P(["s 1", "s 2"]), S(["if x"], [S(["s 4", "s 6"]), S(["s 5"])])]), S(["rp k2"], [P(["s 1"])])],
     [S(["rp k1"], [P(["s 1", "s 2", "s 3"]), S(["if x"], [S(["s 4"]), S(["s 5"])])]), S(["rp k2"], [P(["s 1"])])])
 
 fam("F5", """
@@ -152,6 +152,13 @@ interface *
       S(["interface Eth1"], [S(["description x"])])],
     [S(["interface Vlan10"], [S(["ip a1", "ip a2"]), S(["description x", "description y"]), S(["mtu 1", "mtu 2"])]),
      S(["interface Eth1"], [S(["description x"]), S(["mtu 1", "mtu 2"])])])
+
+# %ordered combined with an explicit %logic: the order of the rows still has to reach the device
+fam("F11", """
+o *
+    seq * %ordered %logic=common.undo_redo
+t * %ordered %logic=common.permanent
+""", [S(["o k1"], [P(["seq 1", "seq 2", "seq 3"])]), P(["t 1", "t 2"])])
 
 BLOCK_VENDORS = ["huawei", "cisco", "nexus", "iosxr", "arista", "aruba", "b4com", "h3c", "optixtrans", "pc"]
 
@@ -418,7 +425,7 @@ def plan(tier):
     fams = [("F1a", "huawei", 12), ("F1b", "cisco", 10), ("F2", "huawei", 8), ("F3", "huawei,cisco", 6),
             ("F4", "huawei,iosxr", 4), ("F5", "huawei,arista", 4), ("F6", "huawei", 6),
             ("F7", "huawei,cisco,pc" if q else ",".join(BLOCK_VENDORS), 12), ("F8", "huawei,cisco", 6),
-            ("F9", "cisco,huawei", 6), ("F10", "cisco,huawei", 6)]
+            ("F9", "cisco,huawei", 6), ("F10", "cisco,huawei", 6), ("F11", "cisco,huawei", 4)]
     for (f, vendors, shards) in fams:
         if not q:
             shards *= 3
